@@ -64,6 +64,19 @@ impl DetectProp for C02 {
     }
     fn directed(&self, thorough: bool) -> Vec<Case> {
         let mut v = large_unicode_cases(thorough);
+        // filter entries that name no encoding, in awkward shapes: the only acceptable outcome is the returned error
+        for (k, l) in odd_unknown_labels().into_iter().enumerate() {
+            let mut s = Sett::default();
+            match k % 3 {
+                0 => s.incl = vec![l.clone()],
+                1 => s.excl = vec!["utf-8".into(), l.clone()],
+                _ => {
+                    s.incl = vec!["ascii".into(), l.clone(), "utf-8".into()];
+                    s.trace = true;
+                }
+            }
+            v.push(Case { bytes: b"plain text, nothing special".to_vec(), sett: s, tag: "directed:odd-unknown-label".into() });
+        }
         // stateful 7-bit encoding cut inside an escape sequence / a two-byte character, probed first
         for (k, b) in truncated_escape_cases().into_iter().enumerate() {
             if !thorough && k % 3 != 1 {
@@ -138,6 +151,11 @@ impl DetectProp for C02 {
                 for e in m.suitable_encodings() {
                     let _ = ms.get_by_encoding(&e);
                 }
+                // lookup by alias, in any spelling the canonicaliser takes
+                for a in m.encoding_aliases() {
+                    let _ = ms.get_by_encoding(a);
+                    let _ = ms.get_by_encoding(&format!(" {} ", a.to_uppercase()));
+                }
             }
             for l in ["", " ", "utf-8", "UTF8", "nope", "\u{0}", "latin1", "ascii", "hz", "replacement", "\u{fffd}\u{10ffff}"] {
                 let _ = ms.get_by_encoding(l);
@@ -149,6 +167,33 @@ impl DetectProp for C02 {
             cx.rep.fail("oracle", "C02:accessor-panicked", &panic_msg(p), &case.bytes, Some(s), &case.tag);
         }
         cx.rep.count("oracle:accessor-sweep");
+        // detection from a file: the same content through from_path (every 4th case; small inputs only), and paths that
+        // cannot be read – a missing file, a directory – which must come back as errors, not as panics
+        if case.bytes.len() < 300_000 && fp(&case.bytes, "c02-path") % 4 == 0 {
+            let dir = std::env::temp_dir().join(format!("verif-c02-{}", std::process::id()));
+            let _ = std::fs::create_dir_all(&dir);
+            let p = dir.join("input.bin");
+            if std::fs::write(&p, &case.bytes).is_ok() {
+                let sett = s.clone();
+                let r = catch_unwind(AssertUnwindSafe(|| {
+                    let a = charset_normalizer_rs::from_path(&p, Some(sett.to_real())).is_ok();
+                    let b = charset_normalizer_rs::from_path(&dir.join("no-such-file"), Some(sett.to_real())).is_err();
+                    let c = charset_normalizer_rs::from_path(&dir, Some(sett.to_real())).is_err();
+                    (a, b, c)
+                }));
+                cx.rep.count("oracle:from-path");
+                match r {
+                    Err(p) => cx.rep.fail("oracle", "C02:from-path-panicked", &panic_msg(p), &case.bytes, Some(s), &case.tag),
+                    Ok((_, missing_is_err, dir_is_err)) => {
+                        if !missing_is_err || !dir_is_err {
+                            cx.rep.fail("oracle", "C02:unreadable-path-not-reported-as-error", &format!("missing file -> error: {}, directory -> error: {}", missing_is_err, dir_is_err), &case.bytes, Some(s), &case.tag);
+                        }
+                    }
+                }
+                let _ = std::fs::remove_file(&p);
+            }
+            let _ = std::fs::remove_dir(&dir);
+        }
         // public helpers on this input
         let sup = supported();
         let e1 = *cx_rng(case).pick(&sup);
